@@ -94,8 +94,10 @@ def make_specs():
         s["mem"] = R.choice(MEMS) if has_mem else None
         s["fw"] = R.choice([None, "0.1", "0.3", "1.0", "1.5", "3.0"]) if pol == "tlru" else (R.choice([None, None, "1.5"]) if R.random() < 0.1 else None)
         s["scope_written"] = {"global": R.choice([None, "global"]), "thread": "thread", "async": None}[flavour]
-        s["name"] = f"named_{fid}" if (flavour != "thread" and R.random() < 0.3) else None
-        s["tags"], s["events"], s["deps"] = pick_meta(R) if flavour != "thread" else ([], [], [])
+        # thread-scope functions may carry name / tags / events / dependencies too: they must stay
+        # per-thread caches all the same (and never show up in the registries)
+        s["name"] = f"named_{fid}" if R.random() < 0.3 else None
+        s["tags"], s["events"], s["deps"] = pick_meta(R)
         s["cache_if"] = R.random() < 0.25
         s["invalidate_on"] = R.random() < 0.25
         # return kind
